@@ -2049,14 +2049,22 @@ def _execute_func(func: PipeFunc, func_args: dict[str, Any], lazy: bool) -> Any:
         raise  # pragma: no cover
 
 
-def _names(nodes: Iterable[PipeFunc | str]) -> tuple[str, ...]:
-    names: list[str] = []
+def _names(
+    nodes: Iterable[PipeFunc | str],
+    graph: nx.DiGraph,
+    consumers: Iterable[PipeFunc],
+) -> tuple[str, ...]:
+    names: set[str] = set()
     for n in nodes:
         if isinstance(n, PipeFunc):
-            names.extend(at_least_tuple(n.output_name))
+            # Only the outputs that are used, a function with multiple outputs
+            # might have outputs that none of the `consumers` takes.
+            for consumer in consumers:
+                if graph.has_edge(n, consumer):
+                    names.update(at_least_tuple(graph.edges[n, consumer]["arg"]))
         else:
             assert isinstance(n, str)
-            names.append(n)
+            names.add(n)
     return tuple(sorted(names))
 
 
@@ -2090,7 +2098,7 @@ def _compute_arg_mapping(
         if n not in replaced and not isinstance(n, _Bound | _Resources)
     ]
     deps = _unique(args + preds)
-    deps_names = _names(deps)
+    deps_names = _names(deps, graph, [*replaced, node])
     if deps_names in arg_set:
         return
     arg_set.add(deps_names)
